@@ -13,6 +13,7 @@ import mmap
 import os
 import struct
 import sys
+import weakref
 
 from .. import build, pool
 from ..build import InfraError
@@ -25,7 +26,8 @@ META = dict(
               "process cloned with fork() (allocator state included), from initial states at each closure-page boundary",
     text="From 0, c-1, c, c+2c-1, c+2c and c+2c+3c-1.. live callbacks (c = closures per 4096-byte page, measured), all "
          "histories of depth <= 4 (quick; thorough 5, from more page boundaries) over: create a callback with signature A or B in the lowest free "
-         "of 3 slots, drop a slot, call through the cdata, call from C through the raw address, gc.collect().  After "
+         "of 3 slots, create a callback inside a reference cycle (cleared by the collector first, or dying by refcount "
+         "inside the collection) that also owns a cdata whose finalizer creates one more callback during the teardown, drop a slot, call through the cdata, call from C through the raw address, call from C a callback that drops itself, puts a new callback in its slot and then fails (its own onerror and error value must handle that), gc.collect().  After "
          "every step all live addresses (background included) are pairwise distinct, every slot callback and two "
          "background callbacks return their own token with their own signature.",
     note="fork() clones the whole process, so the explored successor states are exact; addresses are observed with "
@@ -81,6 +83,21 @@ def tokenB(k, x, y):
     return k * 1000.0 + x - y
 
 
+SELFREP = 0x5e1f
+
+
+class _BodyError(Exception):
+    pass
+
+
+class _Holder(object):
+    def __init__(self, k):
+        self.k = k
+
+    def fn(self, x):
+        return tokenA(self.k, x)
+
+
 class State(object):
     """Lives in the current process."""
 
@@ -97,11 +114,57 @@ class State(object):
             raise InfraError("background callbacks already collide")
         self.slots = [None] * NSLOT      # (cb, sig, k)
         self.nk = 0
+        self.spawned = []                # (cb, k): callbacks created by finalizers while a cycle is torn down
+        self.ncyc = 0
+        self.nops = 0
+        self.events = []
+
+    def _spawn(self):
+        # runs inside a weakref.finalize callback, i.e. possibly in the middle of a garbage collection that is
+        # clearing a callback: creating a callback right then must get a closure nobody else owns
+        if len(self.spawned) < 2:
+            self.nk += 1
+            self.spawned.append((self._make("A", 500 + self.nk), 500 + self.nk))
+
+    def _make_cycle(self, order, k):
+        """A callback that is part of a reference cycle which also owns a plain cdata with a finalizer that
+        creates another callback.  order 'late': the rest of the cycle (a dict) becomes GC-tracked AFTER the
+        callback, so the collector clears the callback first (tp_clear on the callback, then its dealloc);
+        'early': an instance tracked BEFORE the callback, so the callback dies by refcount inside the
+        collection.  Signature A; the function answers tokenA(k, x) for the two probe arguments."""
+        ffi = self.ffi
+        buf = ffi.new("char[]", 16)
+        weakref.finalize(buf, self._spawn)
+        if order == "late":
+            d = {3: tokenA(k, 3), 7: tokenA(k, 7)}
+            cb = ffi.callback("int(int)", d.__getitem__)
+            d["cb"] = cb
+            d["buf"] = buf
+        else:
+            h = _Holder(k)
+            cb = ffi.callback("int(int)", h.fn)
+            h.cb = cb
+            h.buf = buf
+        return cb
 
     def _make(self, sig, k):
         ffi = self.ffi
         if sig == "A":
-            return ffi.callback("int(int)", lambda x, k=k: tokenA(k, x))
+            def body(x, k=k):
+                if x == SELFREP:
+                    # invoked from C through the raw address: drop myself, put a new callback in my slot (it may
+                    # get my closure's memory), then fail -- the failure is still MINE to handle
+                    for i in range(NSLOT):
+                        if self.slots[i] is not None and self.slots[i][2] == k:
+                            self.nk += 1
+                            self.slots[i] = None
+                            self.slots[i] = (self._make("A", self.nk), "A", self.nk)
+                    raise _BodyError(k)
+                return tokenA(k, x)
+
+            def onerror(exc, val, tb, k=k):
+                self.events.append(("onerror", k, getattr(val, "args", (None,))[0]))
+            return ffi.callback("int(int)", body, error=-k - 1, onerror=onerror)
         return ffi.callback("double(double, double)", lambda x, y, k=k: tokenB(k, x, y))
 
     def enabled(self):
@@ -109,24 +172,48 @@ class State(object):
         free = [i for i in range(NSLOT) if self.slots[i] is None]
         if free:
             ops += [("new", "A"), ("new", "B")]
+            # (a cycle needs create + drop + collect to matter: only offered while three steps remain)
+            if self.ncyc < _ST.get("max_cycles", 1) and self.nops <= _ST.get("depth", 4) - 3:
+                ops += [("newcyc", "late"), ("newcyc", "early")]
         for i in range(NSLOT):
             if self.slots[i] is not None:
                 ops += [("drop", i), ("call", i), ("ccall", i)]
+                if self.slots[i][1] == "A" and len(self.slots[i]) == 3:
+                    ops.append(("selfrep", i))       # (not for the cycle callbacks: their function is a dict method)
         ops.append(("collect",))
         return ops
 
     def apply(self, op):
         k = op[0]
+        if k not in ("call", "ccall"):
+            self.nops += 1
         if k == "new":
             i = [j for j in range(NSLOT) if self.slots[j] is None][0]
             self.nk += 1
             self.slots[i] = (self._make(op[1], self.nk), op[1], self.nk)
+        elif k == "newcyc":
+            i = [j for j in range(NSLOT) if self.slots[j] is None][0]
+            self.nk += 1
+            self.slots[i] = (self._make_cycle(op[1], self.nk), "A", self.nk, "cycle")
+            self.ncyc += 1
         elif k == "drop":
             self.slots[op[1]] = None
         elif k == "collect":
             _gc.collect()
+        elif k == "selfrep":
+            cb, sig, kk = self.slots[op[1]][:3]
+            addr = int(self.ffi.cast("uintptr_t", cb))
+            fn = ctypes.CFUNCTYPE(ctypes.c_int, ctypes.c_int)(addr)
+            del cb
+            del self.events[:]
+            r = fn(SELFREP)
+            ev = list(self.events)
+            del self.events[:]
+            if r != -kk - 1 or ev != [("onerror", kk, kk)]:
+                return {"kind": "failure-handled-by-another-callback", "op": list(op), "returned": r,
+                        "own_error_value": -kk - 1, "onerror_events": ev, "own": kk}
         elif k in ("call", "ccall"):
-            cb, sig, kk = self.slots[op[1]]
+            cb, sig, kk = self.slots[op[1]][:3]
             r = self._call(cb, sig, 7, via_c=(k == "ccall"))
             want = tokenA(kk, 7) if sig == "A" else tokenB(kk, 7.0, 2.5)
             if r != want:
@@ -146,7 +233,7 @@ class State(object):
         for i in range(NSLOT):
             if self.slots[i] is None:
                 continue
-            cb, sig, kk = self.slots[i]
+            cb, sig, kk = self.slots[i][:3]
             a = int(self.ffi.cast("uintptr_t", cb))
             if a in self.bgaddr:
                 return {"kind": "address-shared-with-live-callback", "with": "background"}
@@ -158,6 +245,16 @@ class State(object):
                 want = tokenA(kk, 3) if sig == "A" else tokenB(kk, 3.0, 2.5)
                 if r != want:
                     return {"kind": "wrong-function-invoked", "slot": i, "got": r, "want": want, "via_c": via_c}
+        for cb, kk in self.spawned:
+            a = int(self.ffi.cast("uintptr_t", cb))
+            if a in self.bgaddr or a in seen:
+                return {"kind": "address-shared-with-live-callback", "with": "callback-created-by-finalizer"}
+            seen[a] = "spawned"
+            for via_c in (False, True):
+                r = self._call(cb, "A", 3, via_c)
+                if r != tokenA(kk, 3):
+                    return {"kind": "wrong-function-invoked", "slot": "spawned", "got": r, "want": tokenA(kk, 3),
+                            "via_c": via_c}
         for j in (0, len(self.bg) - 1):
             if self.bg:
                 r = self._call(self.bg[j], "A", 5, True)
@@ -267,8 +364,12 @@ def run(ctx):
     Ls = [0]
     for b in bounds[:2 if ctx.quick else 3]:
         Ls += [b - 1, b]
+    if ctx.quick:
+        Ls = Ls[:-1]          # second boundary: only the state from which the next creation crosses it
     depth = 4 if ctx.quick else 5
-    first_ops = [("new", "A"), ("new", "B"), ("collect",)]
+    _ST["max_cycles"] = 1 if ctx.quick else 2
+    _ST["depth"] = depth
+    first_ops = [("new", "A"), ("new", "B"), ("newcyc", "late"), ("newcyc", "early"), ("collect",)]
     items = [(L, f, depth) for L in Ls for f in first_ops]
     # split further: second-level ops for the 'new' subtrees are the expensive part; keep one level
     tot = 0
